@@ -15,7 +15,7 @@ RULE = ("random Avalon-MM traffic (single and burst reads/writes, burst counts 1
         "(3-4 addresses, bursts <= 3-4, FIFO depth 2-3) against the same R_AvlMem operators; the model is bound to the code by "
         "per-cycle lock-step traces.")
 ASSUMPTIONS = [
-    "Avalon-MM master per the Avalon Interface Specification: command held unchanged while waitrequest is high; address and burstcount significant on the first beat of a burst only (constantBurstBehavior = false); no read inside a write burst; burstcount 1..max_burst_length",
+    "Avalon-MM master per the Avalon Interface Specification: command held unchanged while waitrequest is high; address and burstcount significant on the first beat of a burst only (constantBurstBehavior = false); no read inside a write burst; burstcount 1..max_burst_length (the long-burst family goes up to 3*max_burst_length+2 <= 255, which the bridge's waitrequest back-pressure is built for)",
     "the address is a word address of the Avalon data width (as the bridge and the repository's tests use it)",
     "native side = ideal memory with the crossbar's pulse semantics (one wdata.ready / rdata.valid strobe per command, >= 3 cycles after the accept)",
     "a command not accepted / read beats not returned within `bound` (1500; 300 in the defect families) cycles count as never",
@@ -53,6 +53,10 @@ def scenarios(tier, seed):
         for i, (w, p) in enumerate(dns):
             out.append(_sc("down-%d-%d-p%d" % (w, p, pi), w, p, s + 20 + i + 100 * pi, base=BASES[(i + 1 + pi) % 4], p_gap=0.0,
                            runs=2 if q else 4, nops=120, **prof))
+    # ---- bursts longer than the bridge's FIFOs (burstcount > max_burst_length, legal up to 255): back-pressure inside a burst
+    for i, (w, p, mb) in enumerate([(32, 32, 2), (64, 32, 4)] if q else [(32, 32, 2), (64, 32, 4), (8, 8, 3), (32, 8, 2), (64, 64, 8)]):
+        out.append(_sc("long-burst-%d-%d-mb%d" % (w, p, mb), w, p, s + 50 + i, base=BASES[i % 4], p_gap=0.0, p_burst=0.7, maxburst=mb,
+                       long_bursts=True, runs=3 if q else 5, nops=70, lat=(6, 25), stall=0.2, bound=3000))
     # ---- narrower Avalon (up-converter): single accesses
     for i, (w, p) in enumerate(ups):
         out.append(_sc("up-single-%d-%d" % (w, p), w, p, s + 40 + i, base=BASES[(i + 2) % 4], p_burst=0.0, runs=3 if q else 5))
